@@ -2115,11 +2115,13 @@ def c16(tier):
         cases.append(("\n".join(rows), "C16tags", "tags", tags))
     # a quoted string (also of double-width characters) left of the tag, in the tag's own row of a box: the tag is the box's
     for i in range(max(24, n // 10)):
-        nm = rand_tagname(r)[:3]
+        nm = rand_tagname(r)[:r.choice([1, 1, 3])]
         tagtxt = "{" + nm + "}"
-        q = '"' + "".join(r.choice(gen.WIDE[:10] if i % 2 else "ab cd") for _ in range(r.randint(1, 7))) + '"'
+        # (long enough for the tag to stand within the columns a miscounted extent of the quoted text would claim: half as
+        # many again as it has)
+        q = '"' + "".join(r.choice(gen.WIDE[:10] if i % 2 else "ab cd") for _ in range(r.choice([1, 3, 6, 7, 8, 9, 10, 12]))) + '"'
         qcols = sum(2 if common_wide(c) else 1 for c in q)
-        gap = r.randint(1, 3)
+        gap = r.choice([1, 1, 2, 3])
         inner = " " + q + " " * gap + tagtxt + " " * r.randint(0, 3)
         icols = 1 + qcols + gap + len(tagtxt) + (len(inner) - len(inner.rstrip(" ")))
         style = r.choice(["++++-|", "..''-|"])
@@ -2960,11 +2962,18 @@ def c20(tier):
         import struct as _struct
         # (a drawing that keeps a conversion busy for about a second: a dense grid of junctions, within the 20 kB of the quantifier)
         slowb = (("+" * 140 + "\n") * 140).encode("utf-8")
+        gone = []
         for k in range(12):
             try:
                 s_ = _socket.create_connection(("127.0.0.1", srv.port), timeout=10)
                 s_.sendall(b"POST / HTTP/1.1\r\nHost: 127.0.0.1\r\nContent-Type: text/plain\r\nContent-Length: %d\r\n\r\n" % len(slowb) + slowb)
-                if k % 2:
+                gone.append(s_)
+            except OSError:
+                pass
+        time.sleep(0.4)              # the conversions are under way (or queued) when the clients go
+        for k, s_ in enumerate(gone):
+            try:
+                if k % 3 == 1:
                     s_.shutdown(_socket.SHUT_WR)
                 s_.close()
             except OSError:
